@@ -266,7 +266,9 @@ class Rope:
         raise Unsupported('hex of symbolic bytes')
 
     def __getattr__(self, name):
-        raise Unsupported('bytes method %r on symbolic bytes' % name)
+        if hasattr(_bytes, name):
+            raise Unsupported('bytes method %r on symbolic bytes' % name)
+        raise AttributeError("'bytes' object has no attribute %r" % name)
 
 
 def sx_len(x):
